@@ -1035,6 +1035,9 @@ def sroa_tuples(b):
         for st in blk['stmts']:
             d, rv = st['dst'], st['rv']
             if d['l'] in cand and not d['proj']:
+                if st.get('exp'):
+                    bad.add(d['l'])        # built by a macro expansion (format_args!): its shape is what the string rules read
+                    continue
                 if rv['k'] == 'agg' and rv.get('ak') == 'tuple' and len(rv['ops']) == len(cand[d['l']]):
                     for o in rv['ops']:
                         visit_op(o)
